@@ -6,7 +6,7 @@ from vf import Machinery, log
 PROFILE = {
     "C02": dict(universes=[], drivers=[], compose=True),
     "C03": dict(universes=["collide", "history"], drivers=["mix:%d", "history:%d", "stdpairs:200", "paths:%d", "compete:%d", "cgo:%d", "dotlocal:%d"]),
-    "C04": dict(universes=["nulls", "collide", "cgo"], drivers=["hints:%d", "nullrefs:%d", "cgo:%d"]),
+    "C04": dict(universes=["nulls", "collide", "cgo"], drivers=["hints:%d", "nullrefs:%d", "cgo:%d", "dotlocal:%d"]),
     "C05": dict(universes=["collide", "reserved", "history"], drivers=["reserved:0", "paths:%d", "compete:%d", "cgo:%d", "history:%d"]),
     "C06": dict(universes=["dotlocal"], drivers=["dotlocal:%d"]),
     "C08": dict(universes=["history"], drivers=["history:%d"]),
